@@ -25,13 +25,13 @@ def run_canaries(keys, timeout_ms=5000, limit_per_fn=None):
                 out.append(rec)
                 continue
             try:
-                ctx = Ctx()
-                info = verify.verify_function(ctx, key)
+                from . import par
+                infos, obls, res, _agg = par.verify_all([key], [], timeout_ms=timeout_ms, second=False)
+                info = infos[0]
                 if info["status"] != "ok":
                     rec.update(killed=True, by="unsupported:" + info["detail"][:80], status="unsupported")
                 else:
-                    res = solve.discharge(ctx, ctx.obls, timeout_ms=timeout_ms, second=False)
-                    bad = [(ob.name, r["verdict"]) for ob, r in zip(ctx.obls, res) if not r["ok"]]
+                    bad = [(ob.name, r["verdict"]) for ob, r in zip(obls, res) if not r["ok"]]
                     if bad:
                         sat = [b for b in bad if b[1] == "sat"]
                         rec.update(killed=True, by=(sat or bad)[0][0], status=(sat or bad)[0][1])
